@@ -82,6 +82,21 @@ class VFS_Real:
                 fd.write(data)
 
 
+def isselectorsecure(selector: str) -> bool:
+    """The default security check of a selector, see
+    BaseHandler.isrequestsecure()."""
+    return (
+        (selector.find("./") == -1)
+        and (selector.find("..") == -1)
+        and (selector.find("//") == -1)
+        and (selector.find(".\\") == -1)
+        and (selector.find("\\\\") == -1)
+        and (selector.find("\0") == -1)
+        # a trailing "/." names the same directory under another selector
+        and not selector.endswith("/.")
+    )
+
+
 class BaseHandler:
     """Skeleton handler -- includes commonly-used routines."""
 
@@ -134,16 +149,7 @@ class BaseHandler:
         if the request is secure, false if not.  By default, we eliminate
         ./, ../, and //  This is split out from canhandlerequest becase
         it could be too easy to forget about it there."""
-        return (
-            (self.selector.find("./") == -1)
-            and (self.selector.find("..") == -1)
-            and (self.selector.find("//") == -1)
-            and (self.selector.find(".\\") == -1)
-            and (self.selector.find("\\\\") == -1)
-            and (self.selector.find("\0") == -1)
-            # a trailing "/." names the same directory under another selector
-            and not self.selector.endswith("/.")
-        )
+        return isselectorsecure(self.selector)
 
     def canhandlerequest(self) -> bool:
         """Decides whether or not a given request is valid for this
